@@ -32,7 +32,8 @@ VH_DRIVER(tostring){
   long want=atol(arg_value(argc,argv,"--n",g.thorough?"6000":"260")); Rng R(g.seed); Guarded ar(1<<16); long n=0;
   std::vector<Text> texts=corpus_uris(R,g.thorough,(size_t)want);
   // one URI per "what the text ends with" x host kind: every bounds check of the recomposition is the LAST one for some URI here
-  for(const char*h:{"h","1.2.3.4","255.255.255.255","[::1]","[1:2:3:4:5:6:7:8]","[v1.a]",""}) for(const char*tail:{"",":",":80","/","/a","/a/","/a/b","?","?q","#","#f","/a?q#f"}) for(const char*ui:{"","u@","@"}){
+  // (hosts whose spelling in the source is longer, and shorter, than what is written: the written length is the value's, not the text's)
+  for(const char*h:{"h","1.2.3.4","255.255.255.255","[::1]","[1:2:3:4:5:6:7:8]","[v1.a]","","[0000:0000:0000:0000:0000:ffff:192.168.100.200]","[0001:0002:0003:0004:0005:0006:0007:0008]","[00AB:00cd::0.0.0.0]","[::ffff:1.2.3.4]","100.200.209.109","h%41.EX%2e","[vFF.a:B~_-]"}) for(const char*tail:{"",":",":80","/","/a","/a/","/a/b","?","?q","#","#f","/a?q#f"}) for(const char*ui:{"","u@","@"}){
     std::string s=std::string("s://")+ui+h+tail; texts.push_back(T(s.c_str())); }
   for(const char*s:{"s:","s:a","s:/","s:/a","a","/","/a","a/b","?q","#f","s:?","s:#","./a:b","/.//a","s:/.//a"}) texts.push_back(T(s));
   for(const char*s:{"//[::1]","//[1:2:3:4:5:6:7:8]:1","s://u@[::ffff:1.2.3.4]:80/p?q#f","//255.255.255.255","//0.10.100.9:","s://u:p@h:1/a/b?q#f","//[v1.a]","","/","#","?"}) texts.push_back(T(s));
